@@ -244,5 +244,45 @@ def run(ctx) -> None:
         target = an.ctx_method(op) if op in an.Context.methods else None
         calls = [c for c, cal in a.func_calls(w) if cal.kind == "func" and cal.func is an.Context.methods.get(op)]
         rep.check("C13.R5", bool(calls), w, w.node, f"ComponentContext.{op} goes through the guarded Context.{op}", f"ComponentContext.{op} does not call the guarded Context.{op}")
+    # ------------------------------------------------------------------ R6 the guard is the only lifecycle gate
+    # The matrix above is decided by the guard calls alone only if nothing else refuses an
+    # operation because of the lifecycle state: a raise controlled by a test that reads the
+    # state (directly or through `closed`) anywhere else is an extra, unlisted row.
+    from ..loader import ClassInfo
+    from .discharge import controlling_tests
+
+    closed_prop = "closed" if "closed" in an.Context.methods else None
+
+    def reads_state(f, expr) -> bool:
+        for x in ast.walk(expr):
+            if isinstance(x, ast.Attribute) and x.attr == st_attr:
+                return True
+            if isinstance(x, ast.Attribute) and closed_prop and x.attr == closed_prop:
+                t = a.r.expr_type(f, x.value)
+                if isinstance(t, ClassInfo) and ctx.p.is_subclass(t, an.Context.name):
+                    return True
+                if isinstance(x.value, ast.Name) and x.value.id == "self" and f.owner_class is not None and ctx.p.is_subclass(f.owner_class, an.Context.name):
+                    return True
+        return False
+
+    extra = 0
+    scanned = 0
+    for f in ctx.p.all_functions():
+        if f is guard or f.is_lambda or (closed_prop and f is an.Context.methods.get(closed_prop)):
+            continue
+        if not any(isinstance(x, ast.Raise) for x in walk_own(f.node)):
+            continue
+        if not any(isinstance(x, ast.Attribute) and x.attr in (st_attr, closed_prop) for x in walk_own(f.node)):
+            continue
+        scanned += 1
+        fcfg = a.cfg(f)
+        for r in fcfg.live_nodes():
+            if r.kind == "stmt" and isinstance(r.ast, ast.Raise):
+                for t, lab in controlling_tests(fcfg, r):
+                    if isinstance(t.ast, ast.AST) and reads_state(f, t.ast):
+                        extra += 1
+                        rep.violate("C13.R6", f, r.ast, f"`{ast.unparse(t.ast)}` gates a raise on the lifecycle state outside the guard: an operation the statement allows in that state (e.g. during teardown, when `closed` is already true) is refused, or the refusal differs from the guard's RuntimeError")
+    if not extra:
+        rep.hold("C13.R6", guard, None, f"no raise outside the guard is controlled by the lifecycle state ({scanned} functions with both a raise and a state read inspected)", nontrivial=False)
     rep.exhaustive = True
     rep.assume("Enum members are compared by identity; the state attribute is only reachable through the Context class")
